@@ -39,10 +39,14 @@ pub fn scripts(thorough: bool) -> Vec<Script> {
         Script { name: "192GiB-448 + W30^64 (exactly the limit)", zero_prefix: MAX - 448, bytes: corpus::repeat(&corpus::W[30], 64) },
         Script { name: "border 192*2^5 crossing", zero_prefix: (192u64 << 5) - 230, bytes: corpus::repeat(&corpus::W[5], 66) },
         Script { name: "large but piece-poor: 192*2^6+5 zeros + hello", zero_prefix: (192u64 << 6) + 5, bytes: b"Hello, World!\n".to_vec() },
+        // pieces at the smallest level only, then a long tail without pieces: the final block size falls back
+        // several steps, so no level may be given up early just because a (larger) total was declared
+        Script { name: "W0^70 + 100000 zeros + 01 (piece-rich head, empty tail)", zero_prefix: 0, bytes: { let mut b = corpus::repeat(&corpus::W[0], 70); b.extend(vec![0u8; 100_000]); b.push(1); b } },
     ];
     if thorough {
         v.push(Script { name: "192GiB-447 + W30^64 (one over the limit)", zero_prefix: MAX - 447, bytes: corpus::repeat(&corpus::W[30], 64) });
         v.push(Script { name: "48GiB border + W29^65", zero_prefix: (48u64 << 30) - 200, bytes: corpus::repeat(&corpus::W[29], 65) });
+        v.push(Script { name: "W1^66 + 3000000 zeros (piece-rich head, empty tail)", zero_prefix: 0, bytes: { let mut b = corpus::repeat(&corpus::W[1], 66); b.extend(vec![0u8; 3_000_000]); b } });
         v.push(Script { name: "W0^200 W7^40", zero_prefix: 0, bytes: { let mut b = corpus::repeat(&corpus::W[0], 200); b.extend(corpus::repeat(&corpus::W[7], 40)); b } });
     }
     v
@@ -433,7 +437,7 @@ pub fn run(ctx: &Ctx) -> Report {
     rep.set("exhaustive", exhaustive);
     rep.set(
         "rule",
-        "histories over: declare a size from {0, total-1, total, total+1, 192 GiB, 192 GiB+1, u64::MAX} (u64 and usize forms) at any point; in-place zero skip to the script's zero prefix (hook H1); feed the next third of the script (update forms rotate); reset() and start any script; scripts: Hello World, W2^70 (elimination), 96 GiB-448 + W30^64 + 01 (last-piece hash), 192 GiB-448 + W30^64 (exactly the limit), a border crossing (thorough: three more).  In every state finalize / finalize_without_truncation / finalize_raw / input_size / small-size warning are compared with the declarative reference under the declared-size model; refused declarations must return their specific error and leave the Debug rendering unchanged; finalization must not disturb the generator.  After reset the reference is fresh.",
+        "histories over: declare a size from {0, total-1, total, total+1, 192 GiB, 192 GiB+1, u64::MAX} (u64 and usize forms) at any point; in-place zero skip to the script's zero prefix (hook H1); feed the next third of the script (update forms rotate); reset() and start any script; scripts: Hello World, W2^70 (elimination), 96 GiB-448 + W30^64 + 01 (last-piece hash), 192 GiB-448 + W30^64 (exactly the limit), a border crossing, a piece-rich head followed by a long tail without pieces (thorough: four more).  In every state finalize / finalize_without_truncation / finalize_raw / input_size / small-size warning are compared with the declarative reference under the declared-size model; refused declarations must return their specific error and leave the Debug rendering unchanged; finalization must not disturb the generator.  After reset the reference is fresh.",
     );
     rep.assume("sizes of 96 / 192 GiB are reached through hook H1's in-place zero skip (validated at start-up)");
     rep
